@@ -28,6 +28,10 @@ type Contract struct {
 	Mode      string // "int" (default) or "bv"
 	Requires  []*Clause
 	Ensures   []*Clause
+	Assumes   []*Clause // assumed facts about the inputs (not required of callers; listed in evidence)
+	Carve     *Clause   // known-finding carve-out: every obligation is split into (cond ==> goal) and (!cond ==> goal)
+	CaseAll   bool      // the case split applies to every obligation of the unit, not only postconditions
+	Cases     []*Clause // case split of postcondition obligations (conditions over the entry state)
 	GhostEns  []*Clause // ghost-defining postconditions: assumed at call sites, not proof obligations
 	Invs      []*Clause
 	Modifies  []*Clause
@@ -226,7 +230,7 @@ func parseCExpr(text string) (ast.Expr, string, error) {
 }
 
 var clauseKeywords = map[string]bool{
-	"func": true, "props": true, "ghostensures": true, "mode": true, "requires": true, "ensures": true, "invariant": true,
+	"func": true, "props": true, "ghostensures": true, "case": true, "assume": true, "carve": true, "caseall": true, "mode": true, "requires": true, "ensures": true, "invariant": true,
 	"modifies": true, "safety": true, "overflow": true, "inline": true, "trusted": true, "dispatch": true,
 	"let": true, "spec": true, "external": true, "uf": true, "params": true, "results": true,
 	"global": true, "noinline": true, "expand": true, "split": true, "strictpkgs": true, "modcomps": true, "axiom": true, "uses": true, "witness": true, "havoc": true, "inlineall": true, "unroll": true,
@@ -363,6 +367,20 @@ func (cs *ContractSet) parseContractSource(pkgPath, filename string, src []byte)
 			case "ensures":
 				if c := mk(rest); c != nil {
 					cur.Ensures = append(cur.Ensures, c)
+				}
+			case "assume":
+				if c := mk(rest); c != nil {
+					cur.Assumes = append(cur.Assumes, c)
+				}
+			case "caseall":
+				cur.CaseAll = true
+			case "carve":
+				if c := mk(rest); c != nil {
+					cur.Carve = c
+				}
+			case "case":
+				if c := mk(rest); c != nil {
+					cur.Cases = append(cur.Cases, c)
 				}
 			case "ghostensures":
 				if c := mk(rest); c != nil {
